@@ -39,6 +39,8 @@ enum FaultKind
     F_TT_POISON,       // at node k of this go: write entry for the key of the position at that node (a = entry seed)
     F_STALL_POINT,     // at go-phase point k (GO_ENTRY..): clock jumps by a microseconds
     F_BOOK,            // (on setoption Polyglot Book) file fault plan: a = kind, b = arg
+    F_WALL_JUMP,       // at node k of this go: the wall clock (system_clock) is stepped by a microseconds (NTP step, operator,
+                       // suspend); the monotonic clock is not affected
 };
 
 struct Fault
